@@ -224,9 +224,70 @@ func init() {
 		c01LongAlternatives()
 		c01OneLicenceManySpellings()
 		c01TrivialTrees()
+		c01LargeUnevenProducts()
 		runTreeProperty(c01Check, scale(12000, 300000), scale(5, 7), scale(4, 5))
 	}
 	replays["C01"] = func(k *kase) *failure { return c01Check(k, false) }
+}
+
+// c01LargeUnevenProducts: thousands of alternatives (beyond the sizes at which an implementation may switch from
+// materialising to streaming them), with one ANDed operand whose alternatives have DIFFERENT lengths (X OR (Y AND Z)) —
+// buffers sized from the first alternative cut the longer ones
+func c01LargeUnevenProducts() {
+	// references only: matching them costs no range-table lookups, so thousands of alternatives stay cheap
+	pool := make([]string, 64)
+	for i := range pool {
+		pool[i] = "LicenseRef-p" + itoa(i)
+	}
+	for _, wk := range [][2]int{{4, 6}, {2, 12}, {8, 4}} {
+		w, k := wk[0], wk[1]
+		if w*k+4 > len(pool) {
+			continue
+		}
+		ids := append([]string{}, pool...)
+		rng.Shuffle(len(ids), func(i, j int) { ids[i], ids[j] = ids[j], ids[i] })
+		var groups []string
+		var firsts []string
+		at := 0
+		for g := 0; g < k; g++ {
+			groups = append(groups, "("+strings.Join(ids[at:at+w], " OR ")+")")
+			firsts = append(firsts, ids[at+rng.Intn(w)])
+			at += w
+		}
+		x, y, z, sx := ids[at], ids[at+1], ids[at+2], ids[at+3]
+		for _, uneven := range []string{"(" + x + " OR (" + y + " AND " + z + "))", "((" + y + " AND " + z + ") OR " + x + ")"} {
+			for pos := 0; pos < 2; pos++ {
+				if pos == 1 && !thorough() && w != 4 {
+					continue
+				}
+				parts := append([]string{}, groups...)
+				if pos == 0 {
+					parts = append(parts, uneven, sx)
+				} else {
+					parts = append([]string{sx, uneven}, parts...)
+				}
+				e := strings.Join(parts, " AND ")
+				for _, c := range []struct {
+					l    []string
+					want bool
+				}{
+					{append(append([]string{}, firsts...), x, sx), true},
+					{append(append([]string{}, firsts...), y, z, sx), true},
+					{append(append([]string{}, firsts...), y, z), false},
+					{append(append([]string{}, firsts...), y, sx), false},
+					{append(append([]string{}, firsts...), x, y, z), false},
+					{append(append([]string{}, firsts[1:]...), x, y, z, sx), false},
+				} {
+					r := implSat(e, c.l)
+					res.Evaluations++
+					count("large_uneven_products")
+					if r.err != nil || r.panicv != nil || r.ok != c.want {
+						fail(failure{Stream: "oracle", What: fmt.Sprintf("Satisfies differs from the Boolean value of a product of %d %d-wide ORs and an operand whose alternatives differ in length", k, w), Case: &kase{Expr: e, ExprHex: hx(e), Allowed: c.l}, Impl: r.String(), Expected: fmt.Sprint(c.want)})
+					}
+				}
+			}
+		}
+	}
 }
 
 // c01TrivialTrees: the trivial Boolean functions (one leaf; one AND; one OR) over the ends of every version family and
@@ -972,6 +1033,15 @@ func c07FamilyLattice() {
 	}
 }
 
+func permuteLeaves(t *tree, perm []int) {
+	if t.isLeaf() {
+		t.leaf = perm[t.leaf%len(perm)]
+		return
+	}
+	permuteLeaves(t.l, perm)
+	permuteLeaves(t.r, perm)
+}
+
 func uniqueStrings(xs []string) []string {
 	seen := map[string]bool{}
 	var out []string
@@ -1282,6 +1352,72 @@ func init() {
 					if r1, r2 := implSat(e1, l), implSat(e2, l); r1.String() != r2.String() {
 						fail(failure{Stream: "oracle", What: "writing the operands of wide ORs in another order changed Satisfies", Case: &kase{Expr: e1, ExprHex: hx(e1), Allowed: l, Extra: map[string]string{"plain": e2}}, Impl: r1.String(), Expected: r2.String()})
 						break
+					}
+				}
+			}
+		}
+		// chains of 63–66 and 129 DISTINCT terms written in two orders (numbering of distinct terms in machine words):
+		// the verdict must not depend on which term comes first
+		{
+			var pool []string
+			for _, x := range tblActive {
+				if _, ok := tablePos(x); !ok && !strings.HasSuffix(x, "-only") && !strings.HasSuffix(x, "-or-later") {
+					pool = append(pool, x)
+				}
+			}
+			for _, n := range []int{63, 64, 65, 66, 129} {
+				if n > len(pool) {
+					continue
+				}
+				ids := append([]string{}, pool...)
+				rng.Shuffle(len(ids), func(i, j int) { ids[i], ids[j] = ids[j], ids[i] })
+				ids = ids[:n]
+				for _, op := range []string{" AND ", " OR "} {
+					e1 := strings.Join(ids, op)
+					rot := append(append([]string{}, ids[n-1]), ids[:n-1]...)
+					e2 := strings.Join(rot, op)
+					rev := make([]string, n)
+					for i := range rev {
+						rev[i] = ids[n-1-i]
+					}
+					e3 := strings.Join(rev, op)
+					for _, l := range [][]string{ids[:n-1], ids[1:], ids, {ids[n-1]}, {ids[0]}, {"LicenseRef-none"}} {
+						ref := implSat(e1, l).String()
+						res.Evaluations++
+						count("many_distinct_terms_orders")
+						for _, e := range []string{e2, e3} {
+							if r := implSat(e, l); r.String() != ref {
+								fail(failure{Stream: "oracle", What: fmt.Sprintf("the order in which %d distinct terms are written changed Satisfies", n), Case: &kase{Expr: e, ExprHex: hx(e), Allowed: l, Extra: map[string]string{"plain": e1}}, Impl: r.String(), Expected: ref})
+								break
+							}
+						}
+					}
+				}
+			}
+		}
+		// sibling operands with the SAME leaves in another nesting: (E) AND (F), (E) OR (F) must combine the verdicts of E and F
+		for i := 0; i < scale(1500, 15000); i++ {
+			terms := distinctTerms(3)
+			res.Evaluations++
+			count("same_leaves_other_nesting")
+			e := genTree(2, 3)
+			f := e.clone()
+			permuteLeaves(f, rng.Perm(3))
+			te, tf := e.render(texts(terms), "", false, 0, true), f.render(texts(terms), "", false, 0, true)
+			for _, a := range subsetsOf(texts(terms), 3) {
+				re, rf := implSat(te, a), implSat(tf, a)
+				if re.err != nil || rf.err != nil || re.panicv != nil || rf.panicv != nil {
+					break
+				}
+				for _, op := range []string{"AND", "OR"} {
+					text := "(" + te + ") " + op + " (" + tf + ")"
+					r := implSat(text, a)
+					want := re.ok && rf.ok
+					if op == "OR" {
+						want = re.ok || rf.ok
+					}
+					if r.panicv != nil || r.err != nil || r.ok != want {
+						fail(failure{Stream: "oracle", What: "Satisfies('(E) " + op + " (F)', A) differs from combining Satisfies(E, A) and Satisfies(F, A) (E and F have the same leaves in another nesting)", Case: &kase{Expr: text, ExprHex: hx(text), Allowed: a, Extra: map[string]string{"E": te, "F": tf}}, Impl: r.String(), Expected: fmt.Sprint(want)})
 					}
 				}
 			}
